@@ -5,6 +5,7 @@ import (
 	"go/ast"
 	"go/types"
 	"sort"
+	"strings"
 
 	"golang.org/x/tools/go/ssa"
 )
@@ -40,6 +41,11 @@ func inlineNewHelpers(p *Prog) ([]string, error) {
 			return false
 		}
 		obj, ok := fn.Object().(*types.Func)
+		if ok && obj.Name() == "init" && strings.HasPrefix(fn.Name(), "init#") {
+			// a declared init function runs exactly once, from the package initialiser: its body is part of
+			// package initialisation wherever the statements are written (var initialiser or func init)
+			return true
+		}
 		if !ok || ast.IsExported(obj.Name()) || obj.Name() == "init" || obj.Name() == "main" {
 			return false
 		}
@@ -96,6 +102,13 @@ func inlineNewHelpers(p *Prog) ([]string, error) {
 	for _, f := range p.Funcs {
 		if err := process(f); err != nil {
 			return notes, err
+		}
+	}
+	for _, sp := range p.SPkgs {
+		if ini := sp.Func("init"); ini != nil {
+			if err := process(ini); err != nil {
+				return notes, err
+			}
 		}
 	}
 	if len(notes) == 0 {
